@@ -45,7 +45,9 @@ def run_variant(cr, out_name, ctx, label, **kw):
 
     cli_runs.release_logging() if kw.get("inproc", True) and not kw.get("keep_handlers") else None
     cli_runs.clear_outputs(cr)
-    res = cli_runs.run_pretext_to_asm(cr, out_name, ["--write-log"], **kw)
+    # the most talkative log level for a third of the cases (decided by the case, so that all variants agree)
+    extra = ["--write-log"] + (["--log-level", "DEBUG"] if cr.get("t") and int(cr["t"] * 1000) % 3 == 0 else [])
+    res = cli_runs.run_pretext_to_asm(cr, out_name, extra, **kw)
     return res["exit_code"], snapshot(cr), res
 
 
@@ -117,6 +119,22 @@ def check_case(ctx, cr, out_name, rng, other_cr=None, subprocess_seeds=(1, 31337
     other = cr["dir"].parent / (cr["dir"].name + "-cwd")
     other.mkdir(exist_ok=True)
     ok &= compare(ctx, ref, run_variant(cr, out_name, ctx, "cwd", cwd=str(other)), "working-directory", case)
+    if is_fasta:
+        # out-of-date cache files (the indexer then has something to say about them in the log), files named
+        # by absolute path from one directory and by relative path from another
+        fa = cr["assembly_file"]
+
+        def outdate():
+            t = fa.stat().st_mtime - 10  # (the caches are moved back; the FASTA keeps its time)
+            for sfx in (".fai", ".agp"):
+                if Path(str(fa) + sfx).exists():
+                    os.utime(str(fa) + sfx, (t, t))
+
+        outdate()
+        a_ = run_variant(cr, out_name, ctx, "stale-abs")
+        outdate()
+        b_ = run_variant(cr, out_name, ctx, "stale-rel", cwd=str(other), relative=True)
+        ok &= compare(ctx, a_, b_, "working-directory-and-relative-paths", case)
     shutil.rmtree(other, ignore_errors=True)
     if other_cr is not None:
         # history: A, B, A in this interpreter (logging handlers left exactly as the tool leaves them)
@@ -133,8 +151,9 @@ def check_case(ctx, cr, out_name, rng, other_cr=None, subprocess_seeds=(1, 31337
             after = (got[0], snapshot(cr), got[2])
             ok &= compare(ctx, got, after, "later-runs-in-process", case)
         cli_runs.release_logging()
-    for hs in subprocess_seeds:
-        got = run_variant(cr, out_name, ctx, "hash", inproc=False, hashseed=str(hs))
+    for n_hs, hs in enumerate(subprocess_seeds):
+        # (the second fresh interpreter also runs with assertions compiled away, python -O)
+        got = run_variant(cr, out_name, ctx, "hash", inproc=False, hashseed=str(hs), env_extra={"PYTHONOPTIMIZE": "1"} if n_hs else None)
         ok &= compare(ctx, ref, got, "hash-seed-or-fresh-interpreter", case)
     if ok:
         ctx.count("deterministic-ok")
@@ -148,8 +167,10 @@ def format_leg(ctx, rng, scratch, i):
     from vf.ref import tpf_ref
 
     d = scratch / f"f{i}"
-    cr = cli_runs.fasta_case(rng, d / "fa", tagged=rng.random() < 0.5)
+    cr = cli_runs.fasta_case(rng, d / "fa", tagged=rng.random() < 0.5, region_names=(i % 3 == 0))
     ctx.case()
+    if "in:region-style-names" in cr["labels"]:
+        ctx.count("format-leg:region-style-names")
     outs = {}
     try:
         for fmt in ("fa", "agp", "tpf"):
@@ -314,6 +335,8 @@ def gates(c, tier):
         "axis:later-runs-in-process": 30,
         "axis:input-format": 15,
         "format-leg-ok": 8,
+        "format-leg:region-style-names": 2,
+        "axis:working-directory-and-relative-paths": 10,
         "asm-format-ok": 8,
         "specimens-ok": 12,
         "cases:tag-noise": 20,
